@@ -23,7 +23,29 @@ static void ev_parse(const char *s) {
     fputs("{\"e\":\"stringToH3\",\"s\":", vt_out); bytes((const unsigned char *)s, strlen(s));
     fprintf(vt_out, ",\"r\":%u,\"o\":", r); vt_word(o); fputs("}\n", vt_out);
 }
+/* concurrent mode: 8 threads format (and parse back) their own words into their own buffers at the same time; the answer is a
+ * function of the arguments whatever other threads are doing (per-thread event streams, judged by the same trace spec) */
+#include <pthread.h>
+typedef struct { uint64_t *w; int n; char *buf; size_t len; } StrTh;
+static pthread_barrier_t g_bar;
+static void *str_worker(void *arg) {
+    StrTh *t = arg; vt_out = open_memstream(&t->buf, &t->len);
+    pthread_barrier_wait(&g_bar);
+    for (int i = 0; i < t->n; i++) ev_tostring(t->w[i], 17 + (size_t)(t->w[i] % 5), 0xEE);
+    fclose(vt_out); vt_out = NULL; return NULL;
+}
+static void str_threads(int quick, const char *path) {
+    enum { T = 8 }; StrTh th[T]; pthread_t id[T]; memset(th, 0, sizeof th);
+    for (int t = 0; t < T; t++) { th[t].n = quick ? 2500 : 40000; th[t].w = calloc(th[t].n, 8);
+        for (int i = 0; i < th[t].n; i++) th[t].w[i] = i % 3 == 0 ? vt_random_cell((int)vt_randn(16)) : i % 3 == 1 ? vt_rand() >> vt_randn(64) : vt_rand(); }
+    pthread_barrier_init(&g_bar, NULL, T);
+    for (int t = 0; t < T; t++) pthread_create(&id[t], NULL, str_worker, &th[t]);
+    for (int t = 0; t < T; t++) pthread_join(id[t], NULL);
+    vt_open(path);
+    for (int t = 0; t < T; t++) { fwrite(th[t].buf, 1, th[t].len, vt_out); (free)(th[t].buf); free(th[t].w); }
+}
 int main(int argc, char **argv) {
+    if (argc == 5 && !strcmp(argv[1], "threads")) { vt_seed(strtoull(argv[3], 0, 10) + 2020); str_threads(argv[2][0] == 'q', argv[4]); vt_close(); return 0; }
     if (argc < 4) return 2;
     int quick = argv[1][0] == 'q'; vt_seed(strtoull(argv[2], 0, 10) + 20); vt_open(argv[3]);
     /* every bit position, every leading-zero length x random tails, zero, all ones */
